@@ -272,6 +272,9 @@ func (e *Engine) registerCrypto() {
 		}
 		return TupleV{BVi(int64(s.len), 64), &IfaceV{}}
 	}
+	in["(*crypto/rand.reader).Read"] = func(r *Run, fr *Frame, cc *ssa.CallCommon, a []Value) Value {
+		return in["crypto/rand.Read"](r, fr, cc, a[1:])
+	}
 	in[rtPkg+".RandLog"] = func(r *Run, fr *Frame, cc *ssa.CallCommon, a []Value) Value {
 		s := r.bytesToSlice(r.randLog)
 		r.randLog = nil
